@@ -419,3 +419,77 @@ def task_c19(which):
             first_await = min([i for i, t in enumerate(tr) if t[0] == "await" and t[1] != "lock.acquire"] or [10 ** 9])
             run.oblige("C19|%s/O4:the-write-precedes-any-await-inside-the-section" % label, z3.BoolVal(bool(writes) and writes[0] < first_await))
     return task
+
+
+# =====================================================================================================
+# C05 -- the endpoint contract the router's fan-out loop assumes, discharged on the shipped client endpoints
+# =====================================================================================================
+class RouterProbeIface(RouterIface):
+    """the router as seen from a client endpoint during delivery: every use is recorded"""
+    def getattr(self, I, sym, name, default=MISSING):
+        I.ghost.setdefault("router_uses", []).append(name)
+        if name in ("process_message", "register_client", "unregister_client"):
+            return RouterIface.getattr(self, I, sym, name, default)
+        if name in ("register_device", "process_enable_blob"):
+            return Native(name, lambda I_, a, k: None)
+        raise OutOfReach("router attribute %s read inside message_from_device" % name)
+
+
+def task_endpoint_frame(which):
+    """message_from_device of the shipped server-side client endpoints, called the way Router.process_message calls it
+    (synchronously, inside its loop over the registry): raises nothing, awaits nothing, and calls no mutator of the
+    router's registries / BLOB policies (so the registry the router iterates is the registry it started with)."""
+    def task(I, run):
+        I.import_module("asyncio")
+        I.ghost.update(trace=[], tasks=[], router_uses=[])
+        if which == "tcp-server":
+            mod = I.import_module("indi.transport.server.tcp")
+            CH = mod.ns["ConnectionHandler"]
+            I.await_hook = default_await
+            reader, writer = Sym(I.fresh("reader"), ReaderIface()), Sym(I.fresh("writer"), WriterIface())
+            router = Sym(I.fresh("router"), RouterProbeIface())
+            I.prover.assume(is_ref(router.term))
+            h = I.call(CH, [reader, writer, router], {})
+        else:
+            I.ghost["write_is_awaitable"] = True
+            mod = I.import_module("indi.transport.server.tty")
+            CH = mod.ns["ConnectionHandler"]
+            I.await_hook = default_await
+            stdin, stdout = Sym(I.fresh("stdin"), ReaderIface()), Sym(I.fresh("stdout"), WriterIface())
+            router = Sym(I.fresh("router"), RouterProbeIface())
+            I.prover.assume(is_ref(router.term))
+            h = I.call(CH, [router, stdin, stdout], {})
+        label = which
+        reg0 = list(I.ghost.get("registered", []))
+        run.oblige("C05|endpoint[%s]/construction-registers-the-connection-exactly-once" % label,
+                   z3.BoolVal(len(reg0) == 1 and reg0[0] is h and not I.ghost.get("unregistered")))
+        I.ghost.update(trace=[], tasks=[], router_uses=[], routed=[])
+        base = I.import_module("indi.message.base")
+        msg = IObject(base.ns["IndiMessage"])
+
+        def to_string(I_, f, args, kwargs):
+            b = I_.fresh_sym("wire_bytes")
+            I_.prover.assume(is_bytes(b.term))
+            return b
+        I.call_hooks[("indi/message/base.py", "IndiMessage.to_string")] = to_string
+        rf, _ = CH.lookup("message_from_device")
+        run.cover("endpoint[%s]-delivery-reached" % label)
+        try:
+            I.call(IBound(rf, h), [msg], {})
+        except IRaise as e:
+            run.fail("C05|endpoint[%s]/delivery-raises-nothing-inside-the-router's-loop" % label, "raised %s" % e)
+            return
+        run.oblige("C05|endpoint[%s]/delivery-raises-nothing-inside-the-router's-loop" % label, z3.BoolVal(True))
+        uses = list(I.ghost.get("router_uses", []))
+        mutators = [u for u in uses if u in ("register_client", "unregister_client", "register_device", "process_enable_blob")]
+        run.oblige("C05|endpoint[%s]/delivery-calls-no-mutator-of-the-router's-registries-or-BLOB-policies" % label,
+                   z3.BoolVal(not mutators and len(I.ghost.get("registered", [])) == len(reg0) and not I.ghost.get("unregistered")),
+                   note="router uses during delivery: %s" % uses)
+        run.oblige("C05|endpoint[%s]/delivery-does-not-re-enter-the-router" % label, z3.BoolVal(not I.ghost.get("routed")),
+                   note="router uses during delivery: %s" % uses)
+        awaits = [t for t in I.ghost["trace"] if t[0] == "await"]
+        run.oblige("C05|endpoint[%s]/delivery-is-synchronous(no-other-code-runs-while-the-router-iterates)" % label,
+                   z3.BoolVal(isinstance(rf, IFunction) and not rf.is_async and not awaits))
+        stream_ops = [t for t in I.ghost["trace"] if t[0] in ("write", "close")]
+        run.oblige("C05|endpoint[%s]/delivery-does-not-close-the-connection" % label, z3.BoolVal(not [t for t in stream_ops if t[0] == "close"]))
+    return task
